@@ -196,49 +196,75 @@ class SchedSemaphore:
 
 
 class SchedQueue:
-    """queue.Queue stand-in: put and get are yield points, get is enabled only when non-empty."""
+    """queue.Queue stand-in: put and get are yield points, get is enabled only when non-empty.
 
-    def __init__(self, sched, log=None, get_faults=(), exc=KeyboardInterrupt):
+    `invisible(item)` marks items that are neither scheduled nor logged (attachment-only stream
+    events whose number depends on traceback formatting): a put of such an item is held back and
+    enqueued, in order, together with the putting thread's next visible item; a scheduled get hands
+    the leading invisible items and then the one visible item to the caller as one step."""
+
+    def __init__(self, sched, log=None, get_faults=(), exc=KeyboardInterrupt, describe=None, invisible=None):
         self.sched = sched
         self.items = []
         self.log = log
         self.ngets = 0
         self.get_faults = set(get_faults)
         self.exc = exc
+        self.describe = describe or (lambda item: item)
+        self.invisible = invisible or (lambda item: False)
+        self.held = {}
+        self.carry = False
+        self.n_invisible = 0
 
     def put(self, item, block=True, timeout=None):
+        tid = self.sched.current_tid()
+        if self.invisible(item):
+            self.held.setdefault(tid, []).append(item)
+            return
         self.sched.park()
+        self.items.extend(self.held.pop(tid, []))
         self.items.append(item)
         if self.log is not None:
-            self.log.append((self.sched.current_tid(), "put"))
+            self.log.append((tid, "put", self.describe(item)))
 
     def get(self, block=True, timeout=None):
-        k = self.ngets
-        self.ngets += 1
-        if k in self.get_faults:       # an interrupt arriving while blocked in get()
-            self.sched.park()
-            raise self.exc()
-        self.sched.park(lambda: len(self.items) > 0)
+        if not self.carry:
+            k = self.ngets
+            self.ngets += 1
+            if k in self.get_faults:       # an interrupt arriving while blocked in get()
+                self.sched.park()
+                if self.log is not None:
+                    self.log.append((self.sched.current_tid(), "getintr"))
+                raise self.exc()
+            self.sched.park(lambda: len(self.items) > 0)
+        item = self.items.pop(0)
+        if self.invisible(item):
+            self.carry = True
+            self.n_invisible += 1
+            return item
+        self.carry = False
         if self.log is not None:
-            self.log.append((self.sched.current_tid(), "get"))
-        return self.items.pop(0)
+            self.log.append((self.sched.current_tid(), "get", self.describe(item)))
+        return item
 
 
 class SchedThread:
-    """threading.Thread stand-in: start() creates a scheduler task (which runs up to its first yield
-    point), join() is a yield point enabled only when that task has finished."""
+    """threading.Thread stand-in: start() is a yield point of the parent and then creates a scheduler
+    task (which runs up to its first yield point); join() is a yield point enabled only when that
+    task has finished."""
 
-    sched = None     # set on the subclass made by threading_namespace()
+    sched = None     # set on the subclass made by ThreadingNamespace
     registry = None
+    log = None
 
     def __init__(self, group=None, target=None, name=None, args=(), kwargs=None, daemon=None):
         self._target = target
         self._args = args
         self._kwargs = kwargs or {}
         self.task = None
-        self.joined = False
         self.name = name
         self.daemon = daemon
+        self.index = len(self.registry)
         self.registry.append(self)
 
     def run(self):
@@ -246,11 +272,15 @@ class SchedThread:
             self._target(*self._args, **self._kwargs)
 
     def start(self):
+        self.sched.park()
+        if self.log is not None:
+            self.log.append((self.sched.current_tid(), "spawn", self.index))
         self.task = self.sched.spawn(self.run, name=self.name)
 
     def join(self, timeout=None):
         self.sched.park(lambda: self.task is None or self.task.finished)
-        self.joined = True
+        if self.log is not None:
+            self.log.append((self.sched.current_tid(), "join", self.index))
 
     def is_alive(self):
         return self.task is not None and not self.task.finished
@@ -268,6 +298,7 @@ class ThreadingNamespace:
             pass
         Thread.sched = sched
         Thread.registry = self.threads
+        Thread.log = sem_log
         self.Thread = Thread
         self.semaphores = []
 
